@@ -44,7 +44,7 @@ def parsePayload (toks : List String) : Option Payload := do
   let sb ← argHex? toks "sb"
   let core ← argHex? toks "core"
   let ts ← arg? toks "ts"
-  some { bytes := sb, core := core, ts := ts }
+  some { bytes := sb, core := core, ts := ts, ok := arg? toks "bad" != some "1" }
 
 def parseReq (toks : List String) : Option Req := do
   let p ← parsePayload toks
@@ -76,6 +76,30 @@ def step (d : DSt) (toks : List String) : DSt × String :=
     | "crash" =>
       let d' := { d with s := Model.FilePV.step d.s .crash, alive := true }
       (d', showBoth d')
+    | "signheartbeat" =>
+      -- heartbeats keep no record; their sign-bytes are canonical JSON of another type (Props.C04.heartbeat_ne_vote …)
+      (d, if d.alive then s!"ok first=brace valid=true clash=none sigclash=none {showBoth d}" else "dead")
+    | "signdata" =>
+      if !d.alive then (d, "dead") else
+      match argHex? toks "d", arg? toks "fc" with
+      | some dg, some fc =>
+        -- caller-chosen bytes: SignData signs anything (an unrestricted oracle; Props.C04 open statement)
+        let d := learn d dg
+        (d, s!"ok first={fc} valid=true clash={idxOf d.table dg} sigclash={idxOf d.table dg} {showBoth d}")
+      | _, _ => (d, s!"ok first=rlplist valid=true clash=none sigclash=none {showBoth d}")
+    | "domains" => (d, "clash=none")
+    | "reset" =>
+      if !d.alive then (d, "dead") else
+      let d' := { d with s := Model.FilePV.step d.s .reset }
+      (d', showBoth d')
+    | "updatekey" =>
+      -- UpdatePrikey replaces the key of the OBJECT only; the shadow copy that is saved keeps the old key; the record stays
+      (d, if d.alive then s!"ok objkey=true filekey=old {showBoth d}" else "dead")
+    | "loadbad" =>
+      if !d.alive then (d, "dead") else
+      let r := d.s.disk
+      let good := s!"{r.hrs.h}/{r.hrs.r}/{r.hrs.s}/{r.sb.isSome}/{r.sig.isSome}"
+      (d, s!"good=loaded:{good}:same empty=refused truncated=refused cuttail=refused garbage=refused nokey=refused badsig=refused norecord=loaded:0/0/0/false/false:same dir=refused foreign=loaded:0/0/0/false/false:other")
     | "setrec" =>
       if !d.alive then (d, "dead") else
       match argInt? toks "lh", argInt? toks "lr", argInt? toks "ls" with
@@ -97,6 +121,14 @@ def step (d : DSt) (toks : List String) : DSt × String :=
         | none, some spec =>
           -- write-error injection in a child process: "fsize:<n>" always cuts the record, "short:<k>" cuts it iff k > 0
           match spec.splitOn ":" with
+          | ["nofile"] =>
+            let s' := finishFailOpen 32 (Model.FilePV.step d.s (.req q))
+            let d' := { d with s := s' }
+            let ans := match s'.out.head? with
+              | some (_, .panicked) => s!"failed disk={showRec d.table s'.disk}"
+              | some (_, o) => showOutcome d' o
+              | none => "bad-op no-outcome"
+            ({ d' with s := Model.FilePV.step s' .crash }, ans)
           | [kind, ns] =>
             match ns.toNat? with
             | none => (d, "bad-op fail")
